@@ -240,3 +240,56 @@ Proof.
   - unfold trailing_ok. eapply Forall_impl; [|exact HJl]. intros p (A & _ & C). split; assumption.
 Qed.
 Print Assumptions new_writer_old_reader.
+
+(* ---------- non-vacuity ---------- *)
+(* version 1 and version 2 of a struct type in one environment: v2 adds an optional string with a default in the
+   middle, an optional map at the end, and (for the second direction) a required nested struct *)
+Definition ev_schema : env :=
+  [ (* 0: v1 *) [ {| ftag := 0; freq := true; fty := TI32; fdef := None |};
+                  {| ftag := 4; freq := false; fty := TVec TStr; fdef := None |} ];
+    (* 1: v2 *) [ {| ftag := 0; freq := true; fty := TI32; fdef := None |};
+                  {| ftag := 2; freq := false; fty := TStr; fdef := Some (VStr [110; 111]) |};
+                  {| ftag := 4; freq := false; fty := TVec TStr; fdef := None |};
+                  {| ftag := 9; freq := false; fty := TMap TI32 TI64; fdef := None |} ];
+    (* 2: v3 *) [ {| ftag := 0; freq := true; fty := TI32; fdef := None |};
+                  {| ftag := 1; freq := true; fty := TStruct 0; fdef := None |};
+                  {| ftag := 4; freq := false; fty := TVec TStr; fdef := None |};
+                  {| ftag := 200; freq := true; fty := TVec TI8; fdef := None |} ] ].
+Definition ev_v1 : list val := [VInt 7; VList [VStr [97]; VStr []]].
+Example ev_old_to_new :
+  decode ev_schema 1 (encode ev_schema 0 (VStruct ev_v1))
+  = DOk (VStruct [VInt 7; VStr [110; 111]; VList [VStr [97]; VStr []]; VMap []]) [].
+Proof.
+  assert (Hwf : wf_schema 2 ev_schema) by (apply wf_schema_b_sound; vm_compute; reflexivity).
+  rewrite (old_writer_new_reader ev_schema 2 6 0 1 ev_v1 [VInt 7; VStr [110; 111]; VList [VStr [97]; VStr []]; VMap []]);
+    try assumption; try (vm_compute; reflexivity); try lia.
+  - vm_compute. lia.
+  - change (fields_of ev_schema 1) with (nth 1 ev_schema []). change (fields_of ev_schema 0) with (nth 0 ev_schema []). cbn [nth ev_schema].
+    apply EV_same.
+    apply (EV_new ev_schema {| ftag := 2; freq := false; fty := TStr; fdef := Some (VStr [110; 111]) |});
+      [reflexivity|apply (has_type_b_sound ev_schema 4); vm_compute; reflexivity|reflexivity|].
+    apply EV_same.
+    apply (EV_new ev_schema {| ftag := 9; freq := false; fty := TMap TI32 TI64; fdef := None |});
+      [reflexivity|apply (has_type_b_sound ev_schema 4); vm_compute; reflexivity|reflexivity|].
+    apply EV_nil.
+  - apply (has_type_b_sound ev_schema 6). vm_compute. reflexivity.
+Qed.
+Definition ev_v3 : list val := [VInt 7; VStruct [VInt 1; VList []]; VList [VStr [98]]; VBytes [1; 2]].
+Example ev_new_to_old :
+  decode ev_schema 0 (encode ev_schema 2 (VStruct ev_v3))
+  = DOk (VStruct [VInt 7; VList [VStr [98]]]) (ser_fields [(200, WSimple [1; 2])]).
+Proof.
+  assert (Hwf : wf_schema 2 ev_schema) by (apply wf_schema_b_sound; vm_compute; reflexivity).
+  rewrite (new_writer_old_reader ev_schema 2 6 0 2 ev_v3 [VInt 7; VList [VStr [98]]]
+             [[]; wire_fields ev_schema [VStruct [VInt 1; VList []]] [ {| ftag := 1; freq := true; fty := TStruct 0; fdef := None |} ]]
+             (wire_fields ev_schema [VBytes [1; 2]] [ {| ftag := 200; freq := true; fty := TVec TI8; fdef := None |} ]));
+    try assumption; try (vm_compute; reflexivity); try lia.
+  - vm_compute. lia.
+  - vm_compute. lia.
+  - change (fields_of ev_schema 2) with (nth 2 ev_schema []). change (fields_of ev_schema 0) with (nth 0 ev_schema []). cbn [nth ev_schema].
+    apply (PJ_old ev_schema [] [] {| ftag := 0; freq := true; fty := TI32; fdef := None |}); [reflexivity|].
+    apply (PJ_old ev_schema [ {| ftag := 1; freq := true; fty := TStruct 0; fdef := None |} ] [VStruct [VInt 1; VList []]]
+             {| ftag := 4; freq := false; fty := TVec TStr; fdef := None |}); [reflexivity|].
+    apply (PJ_end ev_schema [ {| ftag := 200; freq := true; fty := TVec TI8; fdef := None |} ] [VBytes [1; 2]]).
+  - apply (has_type_b_sound ev_schema 6). vm_compute. reflexivity.
+Qed.
